@@ -122,8 +122,39 @@ def clone_class(w, real):
     return type("Sym" + real.__name__, (real,), cloned_class_dict(w, real))
 
 
+_GUARDED = False
+
+
+def _install_constructor_guard(expr_base):
+    """A real (content-hashing, singleton-registering) constructor reached with a symbolic node or value means some
+    module is missing from the world: fail loudly instead of silently mixing real and symbolic nodes."""
+    global _GUARDED
+    if _GUARDED:
+        return
+    _GUARDED = True
+    orig = expr_base.__new__
+
+    def guarded(cls, *a, **k):
+        from .core import HarnessError, is_symbolic
+
+        def sym(x):
+            if is_symbolic(x) or hasattr(builtins.type(x), "_symx_real"):
+                return True
+            if isinstance(x, (tuple, list)):
+                return any(sym(y) for y in x)
+            return False
+
+        if not hasattr(cls, "_symx_real") and any(sym(x) for x in a):
+            raise HarnessError(f"uncloned constructor {cls.__module__}.{cls.__name__} reached with symbolic operands "
+                               "(a module is missing from the harness world)")
+        return orig(cls, *a, **k)
+
+    expr_base.__new__ = guarded
+
+
 class NodeSpace:
     def __init__(self, world, expr_base):
+        _install_constructor_guard(expr_base)
         self.world = world
         self.expr_base = expr_base
         self._sub = {}
